@@ -341,6 +341,44 @@ def prove_rel(p, rel, what="", timeout_ms=20000):
     return Verdict(rs, what, [pp], model_point(m) if m is not None else None, dt, None, len(pp.t))
 
 
+def prove_regular(prefix="", timeout_ms=20000):
+    """Continuity side of a derivative-based argument ("value at one point + derivative everywhere" decides a function only
+    where it is continuous): every transcendental atom created so far has an argument that stays finite on the whole domain
+    (no denominator factor of it can vanish there), real logs have positive arguments and complex logs stay off the cut.
+    Returns a list of Verdicts."""
+    out = []
+    seen = set()
+    for _idx, info in list(ctx.atom_info.items()):
+        fn = info["fn"]
+        arg = info["arg"]
+        args = arg if isinstance(arg, tuple) else (arg,)
+        for a in args:
+            if not isinstance(a, Q):
+                continue
+            for k0, (f, _k) in a.den.items():
+                if k0 in seen:
+                    continue
+                seen.add(k0)
+                # decided without the engine's standing "denominators are non-zero" side conditions
+                rs, m, dt = check(context_constraints(include_nonzero=False) + [poly_to_z3(f) == 0], timeout_ms)
+                out.append(Verdict(rs, "%sargument of %s stays finite: denominator factor != 0 on the domain" % (prefix, fn), [f], model_point(m) if m is not None else None, dt, None, len(f.t)))
+        if fn == "log" and isinstance(arg, Q):
+            key = ("logpos", arg.key())
+            if key not in seen:
+                seen.add(key)
+                out.append(prove_rel(arg, ">0", "%sargument of the real log is positive on the domain" % prefix, timeout_ms))
+        if fn == "log_re" and isinstance(arg, tuple):
+            re, im = arg
+            key = ("cut", re.key(), im.key())
+            ckey = ("cut", re.key(), (-im).key())
+            if key not in seen and ckey not in seen:
+                seen.add(key)
+                goal = z3.Not(z3.And(rel_to_z3(im.n, "==0"), rel_to_z3(re.n * re.den_odd(), "<=0")))
+                rs, m, dt = check(context_constraints(include_nonzero=False) + [z3.Not(goal)], timeout_ms)
+                out.append(Verdict(rs, "%sargument of the complex log stays off the branch cut on the domain" % prefix, None, model_point(m) if m is not None else None, dt, None, 1))
+    return out
+
+
 def reachable(timeout_ms=10000):
     """Vacuity twin: the assumptions collected so far must be satisfiable."""
     rs, m, dt = check(context_constraints(), timeout_ms)
